@@ -46,6 +46,8 @@ class PoolReplayer(E.Replayer):
         self.reserved = set()       # taken by the link layer, not yet mapped by any application
         self.delivered_keys = set()
         self.c13 = []               # violations of the C13 statement
+        self.fresh_from = 50        # no-reserve mode: any id unused at delivery time; searched from here so
+                                    # that a later qalloc (lowest unused id) cannot take the qubit of a parked pair
         self.owners = {}            # request key -> applications that issue a request on it
         for sp in sc.subs:
             for rq in sp.reqs:
@@ -62,6 +64,9 @@ class PoolReplayer(E.Replayer):
         used0 = set(ex._used_physical_qubit_addresses)
         n0 = len(self.steps)
         pre_cacts = []
+        if tok[0] in ("x", "i"):
+            self.lifecycle(tok, before, used0)
+            return
         if tok[0] == "d":
             r = sc.resps[tok[1]]
             if r.uid in self.uid2idx:
@@ -71,6 +76,15 @@ class PoolReplayer(E.Replayer):
                 self.reserved.add(r.phys)
                 used0.add(r.phys)
                 pre_cacts.append({"a": "reserve"})
+            elif r.ty == "K":
+                # no pre-reservation (a stub network stack): the pair sits in ANY physical qubit that is
+                # unused at delivery time and not carried by a response that is still parked.  Nothing
+                # marks it: it becomes used only when the executor maps it to a virtual qubit.
+                parked = {x.logical_qubit_id for x in ex._pending_epr_responses if hasattr(x, "logical_qubit_id")}
+                p = self.fresh_from
+                while p in ex._used_physical_qubit_addresses or p in parked:
+                    p += 1
+                r.phys = p
             self.delivered_keys.add(r.key())
         super().step(tok)
         if len(self.steps) == n0:
@@ -78,6 +92,28 @@ class PoolReplayer(E.Replayer):
         st = self.steps[-1]
         st["cacts"] = pre_cacts + st["cacts"]
         self.check(tok, st, before, used0)
+
+    def lifecycle(self, tok, before, used0):
+        """("x", app): stop_application; ("i", app, n): init_new_application — while requests / parked
+        responses of the application may still exist"""
+        ex = self.ex
+        rec = {"tok": list(tok), "acts": []}
+        try:
+            if tok[0] == "x":
+                rec["cacts"] = [{"a": "stop", "app": tok[1]}]
+                list(ex.stop_application(tok[1]))
+            else:
+                rec["cacts"] = [{"a": "init", "app": tok[1], "n": tok[2]}]
+                ex.init_new_application(tok[1], tok[2])
+        except Exception as e:
+            rec["refused"] = type(e).__name__      # the model's life-cycle ops return a fault, no `raise`
+        rec["full"] = E.dump_full(ex, sorted(self.sc.apps), self.addrs, list(self.sid.values()), ex._name)
+        rec["fin"] = {self.sid[i]: st for i, st in self.state.items() if i in self.sid}
+        rec["obs"] = E.canon_real(ex, self.uid2idx)
+        self.steps.append(rec)
+        if "refused" in rec and (snap_all(ex) != before or set(ex._used_physical_qubit_addresses) != used0):
+            self.bad("a refused %s changed the executor state" % ("stop" if tok[0] == "x" else "registration"), tok)
+        self.check(tok, rec, before, used0)
 
     # ---- the C13 statement on the real executor ----------------------------------------------------
     def check(self, tok, st, before, used0):
@@ -103,6 +139,12 @@ class PoolReplayer(E.Replayer):
         now = snap_all(ex)
         if tok[0] == "s":
             allowed = {sc.subs[tok[1]].app}
+        elif tok[0] in ("x", "i"):
+            allowed = {tok[1]}
+            if tok[0] == "x" and "refused" not in st:
+                mine = [p for p in ((before.get(tok[1]) or {}).get("unit") or []) if p is not None]
+                if tok[1] in now or any(p in used for p in mine):
+                    self.bad("stop_application left qubits or memory of the application behind", tok)
         else:
             allowed = set()
             for k in self.delivered_keys:
@@ -116,7 +158,7 @@ class PoolReplayer(E.Replayer):
                             "queues of the delivered responses")
                 self.bad(what, tok, changed_app=b, may_change=sorted(allowed),
                          unit_before=(before.get(b) or {}).get("unit"), unit_after=(now.get(b) or {}).get("unit"))
-        if "raised" in st and tok[0] != "s":
+        if "raised" in st and tok[0] in ("d", "p"):
             if before != now or used != used0:
                 self.bad("a delivery / poll that raised %s changed the executor state" % st["raised"], tok)
 
@@ -134,6 +176,7 @@ def run_case(sc, toks, driver, reserve=True):
 
 
 def fails(desc, toks, what, reserve=True):
+    toks = [tuple(t) for t in toks]
     rp = PoolReplayer(E.Scenario.from_desc(copy.deepcopy(desc)), E.new_executor(), reserve=reserve)
     for tok in toks:
         rp.step(tok)
@@ -142,7 +185,7 @@ def fails(desc, toks, what, reserve=True):
     return any(v["what"] == what for v in rp.c13)
 
 
-def shrink_schedule(desc, toks, what):
+def shrink_schedule(desc, toks, what, reserve=True):
     """drop schedule tokens while the same C13 violation is still reported"""
     cur = list(toks)
     i = len(cur) - 1
@@ -151,7 +194,7 @@ def shrink_schedule(desc, toks, what):
         c = cur[:i] + cur[i + 1:]
         budget -= 1
         try:
-            if fails(desc, c, what):
+            if fails(desc, c, what, reserve):
                 cur = c
         except Exception:
             pass
@@ -235,4 +278,43 @@ def stale_request_scenario(pairs=1, vq_other=1, early_other=False):
     run_a = [("s", 0)] * (len(a.lines) + 2)
     run_b = [("s", 1)] * (len(b.lines) + 2)
     toks = (run_b[:3] + run_a + run_b if early_other else run_a + run_b) + [("d", 0), ("p",), ("s", 1)]
+    return sc, toks
+
+
+def parked_then_stop_scenario(pairs=1, other_app=True):
+    """A keep response arrives while its virtual qubit is still allocated: it is parked (nothing may be
+    marked in use for it).  Then the application is stopped and the same id is registered again and
+    allocates; a second application allocates in between: used must equal mapped throughout."""
+    rng = _rng()
+    sc = E.Scenario()
+    sc.apps = {0: pairs + 1}
+    if other_app:
+        sc.apps[1] = 2
+    sp = E.SubProg(0, 0)
+    rq = E.Req("recv", "K", 1, 0, pairs, list(range(pairs)))
+    sp.reqs.append(rq)
+    for k in range(pairs):
+        sp.op_qalloc(k)                       # the virtual qubits the request names are busy
+    sp.op_array(0, pairs)
+    for k in range(pairs):
+        sp.op_store(0, k, k)
+    sp.op_array(1, E.OK_FIELDS_K * pairs)
+    sp.op_recv(rq, 0, 1)
+    sp.op_wait("all", 1, 0, E.OK_FIELDS_K * pairs)      # blocks: the responses stay parked
+    sc.subs.append(sp)
+    if other_app:
+        ob = E.SubProg(1, 0)
+        ob.op_qalloc(0)
+        ob.op_qalloc(1)
+        sc.subs.append(ob)
+    again = E.SubProg(0, 0)
+    for k in range(pairs + 1):
+        again.op_qalloc(k)
+    sc.subs.append(again)
+    for k in range(pairs):
+        sc.resps.append(E.RespSpec(k, "K", 1, E.purpose_of(1, 0), 1, 100 + k, rng))
+    toks = [("s", 0)] * (len(sp.lines) + 2) + [("d", k) for k in range(pairs)] + [("p",)]
+    if other_app:
+        toks += [("s", 1)] * (len(sc.subs[1].lines) + 2)
+    toks += [("x", 0), ("i", 0, pairs + 1)] + [("s", len(sc.subs) - 1)] * (len(again.lines) + 2)
     return sc, toks
